@@ -2088,7 +2088,8 @@ func float32ToHalf(f float32) uint16 {
 		if frac == 0 {
 			return uint16(sign<<15 | 0x1f<<10)
 		}
-		return uint16(sign<<15 | 0x1f<<10 | (frac >> 13))
+		// keep NaN a NaN even when only low payload bits are set
+		return uint16(sign<<15 | 0x1f<<10 | 0x200 | (frac >> 13))
 	case exp > 15: // overflow → infinity
 		return uint16(sign<<15 | 0x1f<<10)
 	case exp > -15: // normal range
